@@ -209,7 +209,6 @@ structure MBase (c : Cfg) (pp : PP) : Prop where
 
 /-- `pp'` agrees with `pp` on everything the invariant looks at -/
 structure Same (pp pp' : PP) : Prop where
-  rn : pp'.skipRn = pp.skipRn
   st : pp'.state = pp.state
   evs : pp'.evs = pp.evs
   mt : pp'.metaOf = pp.metaOf
@@ -249,14 +248,14 @@ theorem MMain.congr {c : Cfg} {pp pp' : PP} {X : Bytes} (h : MMain c pp X) (s : 
       (s.ne ▸ hn) (hmk.congr s) (s.mt ▸ hm) (s.vo ▸ ho) hle hX
   | nnext done rest hsp hd hs hX => exact .nnext done rest hsp (s.evs ▸ hd) (s.st ▸ hs) hX
 
-theorem MInv.congr {c : Cfg} {pp pp' : PP} {R : Bytes} (h : MInv c pp R) (s : Same pp pp') : MInv c pp' R := by
+theorem MInv.congr {c : Cfg} {pp pp' : PP} {R : Bytes} (h : MInv c pp R) (s : Same pp pp') (h0 : pp'.skipRn = pp.skipRn) : MInv c pp' R := by
   cases h with
-  | main X hr hm => exact .main X (s.rn ▸ hr) (hm.congr s)
-  | fin0 hd hr hds hR => exact .fin0 (s.evs ▸ hd) (s.rn ▸ hr) (s.ds ▸ hds) hR
-  | fin1 hd hr hds hR => exact .fin1 (s.evs ▸ hd) (s.rn ▸ hr) (s.ds ▸ hds) hR
-  | fin2 hd hs hr => exact .fin2 (s.evs ▸ hd) (s.st ▸ hs) (s.rn ▸ hr)
-  | nfin0 done rest hsp hd hr hds hR => exact .nfin0 done rest hsp (s.evs ▸ hd) (s.rn ▸ hr) (s.ds ▸ hds) hR
-  | nfin1 done rest hsp hd hr hds hR => exact .nfin1 done rest hsp (s.evs ▸ hd) (s.rn ▸ hr) (s.ds ▸ hds) hR
+  | main X hr hm => exact .main X (h0 ▸ hr) (hm.congr s)
+  | fin0 hd hr hds hR => exact .fin0 (s.evs ▸ hd) (h0 ▸ hr) (s.ds ▸ hds) hR
+  | fin1 hd hr hds hR => exact .fin1 (s.evs ▸ hd) (h0 ▸ hr) (s.ds ▸ hds) hR
+  | fin2 hd hs hr => exact .fin2 (s.evs ▸ hd) (s.st ▸ hs) (h0 ▸ hr)
+  | nfin0 done rest hsp hd hr hds hR => exact .nfin0 done rest hsp (s.evs ▸ hd) (h0 ▸ hr) (s.ds ▸ hds) hR
+  | nfin1 done rest hsp hd hr hds hR => exact .nfin1 done rest hsp (s.evs ▸ hd) (h0 ▸ hr) (s.ds ▸ hds) hR
 
 /-- the machine cannot do anything with the window it has -/
 def Quiescent (pp : PP) : Prop :=
